@@ -76,4 +76,10 @@ def run(program, res, tier):
     r3 = Relabel(res, {"*": "C02-S3"})
     c10._s3(program, model, r3)
     c09._s1(program, r3)
+    res.rule("C02-S4", "comparison operators agree with Pandas on missing operands")
+    from . import c01
+    c01.comparison_null_rule(program, res, "PostgreSQL", "PostgreSQLModel", rule="C02-S4")
+    res.rule("C02-S5", "missing values are ordered where Pandas puts them")
+    from . import c18
+    c18.null_position_rule(program, res, ["PostgreSQLModel"], rule="C02-S5")
     res.assumptions.append("PostgreSQL 16 built-in function list, meaning vocabulary and join keywords (sa/facts.py)")
